@@ -30,6 +30,12 @@ pub fn run_one(out: &mut Out, s: &Value) {
     let mut run: Run = Run::new(&cfg);
     let addrs: Vec<i64> = (0..n as i64).map(|i| 10 + i).collect();
     let mut d = json!({"c": "dial", "peer": 1, "cond": "Always", "addrs": addrs});
+    if s.get("behdup").and_then(|x| x.as_bool()).unwrap_or(false) {
+        // the behaviour contributes addresses that are already in the list (and one duplicate pair of its own):
+        // every distinct address must still be handed to the transport exactly once
+        d["beh_addrs"] = json!([[10, 10 + (n as i64 - 1)], [10], []]);
+        d["extend"] = json!(true);
+    }
     if ovr && !smart {
         d["factor"] = json!(k);
     }
@@ -140,7 +146,7 @@ pub fn main(a: &vcommon::Args) {
                 for sl in slots {
                     steps.push(json!({"slot": sl, "ok": r.gen_bool(okp), "poll": r.gen_bool(0.7)}));
                 }
-                let mut s = json!({"n": n, "k": k, "override": r.gen_bool(0.5), "steps": steps});
+                let mut s = json!({"n": n, "k": k, "override": r.gen_bool(0.5), "steps": steps, "behdup": r.gen_bool(0.25)});
                 if nsmart > 0 {
                     // smart dialing: staggered real-time delays (30 ms steps for private TCP addresses); no factor
                     nsmart -= 1;
